@@ -1301,7 +1301,9 @@ def _resolve_call_from_token(
     # of its own tokens from different streams.
     if not secrets.compare_digest(token_call_id, expected_call_id):
         raise _RpcHttpError(
-            RuntimeError("State token does not belong to the supplied call token"),
+            # Reported like any other token that does not authenticate for this
+            # request, not as a hint that both tokens were genuine.
+            RuntimeError("State token signature verification failed"),
             status_code=HTTPStatus.BAD_REQUEST,
         )
 
